@@ -18,6 +18,16 @@ CLAIMED = {
         text="For generated multi-version store histories every true (non-)membership statement must be provable through the store's own API and verify against the committed root of that version; honest proofs for false statements, proofs of other keys, proofs forged from the reference tree (inner node presented as leaf) and structurally mutated proofs must never be accepted for a false statement nor panic. Ground truth comes from the model. Held on everything explored.",
         note="Ground truth = in-memory model tied to the implementation through C08's reference root; SHA-256 collision resistance assumed; the attacker's forged proofs are those the generator can build (reference-tree paths, splices, bit/structure mutations), not all byte strings.",
         tech=PBT + "completeness/soundness oracle from a reference model, adversarial proof construction + structured mutation"),
+    "C10": dict(
+        cat="exploration",
+        text="Generated operation histories (set/delete/get/forward+reverse prefix iteration/nested transactions with flush or discard/copies/commit/read-only views/flush+compaction/rollback/re-open, plus the indexer keyspace through the checkpoint API) on the real Store are compared answer-by-answer with a reference versioned map; every historical answer is memoised and re-asked after every later commit, compaction, rollback to >= v and re-open and must be byte-identical. Held on everything explored.",
+        note="Input domain restricted to what real callers produce (length-prefixed, segment-prefix-free keys; canonical iterator use; offline rollback) - each restriction is listed in evidence assumptions; trusts the reference map h/storemodel/vmap.go.",
+        tech=PBT + "stateful model-based testing against a reference versioned map + immutability-of-history re-query invariant"),
+    "C09": dict(
+        cat="fault_enumeration",
+        text="For seeded block workloads on the real Store over pebble's crashable in-memory file system, a crash is injected before EVERY file-system operation (create/write/sync/rename/remove/...) between open and close, each with 0 %, partial and 100 % survival of unsynced data; every crash image is re-opened through the real open path and must show one previously committed height h' with state, historical state, commitment tree, block/tx/certificate/event/checkpoint indexes and commit id all at h' and equal to the model, nothing of later heights visible, and must accept the next block. Enumeration of crash points per workload is exhaustive when N <= 600 operations.",
+        note="Crash model is pebble's MemFS CrashClone (4 KiB block granularity, no torn sub-block writes); durability of unsynced recent heights is not claimed (commits are NoSync by design); store-level workload (FSM-level execution is covered by C03/C11).",
+        tech="fault-injection enumeration over generated workloads (seeded PRNG) with a reference model oracle; crash images saved as replay files"),
 }
 
 REASONS = {}  # property id -> reason when not claimed (default below)
